@@ -89,6 +89,10 @@ mod item;
 mod key;
 #[cfg(feature = "parse")]
 mod parser;
+#[cfg(toml_verif)]
+#[cfg(feature = "parse")]
+#[doc(hidden)]
+pub mod verif_hooks;
 mod raw_string;
 mod repr;
 mod table;
